@@ -26,7 +26,7 @@ def has_collective(node):
             return True
         if isinstance(n, ast.Call) and isinstance(n.func, (ast.Name, ast.Attribute)):
             nm = n.func.id if isinstance(n.func, ast.Name) else n.func.attr
-            if nm in ('_transpose', '_transpose_source_intact', 'setLayout', 'getLayoutHandler', 'LayoutHandler',
+            if nm in ('_transpose', '_transpose_source_intact', '_transposeRedirect', '_transposeRedirect_source_intact', 'setLayout', 'getLayoutHandler', 'LayoutHandler',
                       'LayoutSwapper', '_extract_from_source', '_rearrange_from_buffer', 'getMin', 'getMax', 'getBlockForFig',
                       'setupSave'):
                 return True
